@@ -849,7 +849,7 @@ const rule = "A registry of the exported API taking slices, Samples, graphs or d
 	"shared slice, including spare capacity filled with a sentinel, must be unchanged after every call; (2) every call repeated " +
 	"in another order must return a bit-identical result; (3) 16 goroutines run the whole registry concurrently in different " +
 	"orders on the same inputs: same results, and the binary is built with -race (a report stops the process and is a violation). " +
-	"Non-trivial: the main sample is unsorted and has a tie. distinct = canonical JSON of the inputs."
+	"Non-trivial: the main sample is unsorted and has a tie. distinct = canonical JSON of the inputs. Later additions: neighbour-argument phase, a 2600-node graph, weighted Sorted samples, tied U distributions with counts beyond 2^53, windows of one buffer as arguments."
 
 func drawInputs(t *rapid.T) *Inputs {
 	n := rapid.IntRange(4, 14).Draw(t, "n")
